@@ -13,6 +13,10 @@ import GunYu.Proofs.Rdb.Chunk
 import GunYu.Proofs.Rdb.StreamNode
 import GunYu.Proofs.Rdb.Frame
 import GunYu.Proofs.Rdb.FanOut
+import GunYu.Proofs.Rdb.Sync
+import GunYu.Proofs.Rdb.Parallel
+import GunYu.Proofs.Rdb.Commute
+import GunYu.Proofs.Rdb.Interleave
 
 namespace GunYu.Props.C03
 open GunYu GunYu.Rdb GunYu.RedisSem
@@ -419,6 +423,204 @@ theorem replay_db (cfg : RCfg) (origin : Int) :
   unfold mapDb
   refine ⟨fun h => by simp [h], fun h t hf => by simp [h, hf], fun h hf => by simp [h, hf]⟩
 
+/-! ## The whole dataset
+
+`full_sync_partial` composes everything above over a WHOLE snapshot file: header,
+every item of the frame, every key with its metadata and value, EOF and checksum —
+parsed by the loader model with any chunk threshold, fanned out to ONE worker,
+replayed by the replay model under any DB mapping / filter / RESTORE setting, and
+the requests of that worker applied to the oracle target (`applyReqs`: numbered
+databases, SELECT, keyspace commands) starting from empty databases. -/
+
+/-- **`full_sync_partial`** — for every well-formed dataset `f` (`FileE`: any RDB version
+    1…13, any number of databases, AUX fields, SELECTDB / RESIZEDB / slot-info items
+    and function libraries between the keys, keys with EXPIRETIME(_MS) / IDLE / FREQ,
+    values of EVERY string / list / set / sorted-set / hash encoding, containers raw or
+    LZF-compressed, checksum present or disabled), every chunk threshold and module-aux
+    policy (`d`), every target version, `fnExists`, RESTORE on/off, `MaxProtoBulkLen`,
+    target DB / DB map, clock reading and every DB / key / slot filter (`cfg`):
+    `sendRdb` with one worker succeeds (`true`: every entry applied, `Done` reached),
+    and its request log applied to a target with empty databases yields, in EVERY
+    database `D`, exactly the keys of `f` that are not filtered out and are mapped to
+    `D` — in file order, nothing else — each with its value (`Holds`: the logical
+    value rebuilt by the expansion, or the object RESTORE creates from the byte-exact
+    payload) and the time to live that realises its absolute expiry.
+
+    Hypotheses. `hcar`: no module aux item; values are not streams / module values;
+    collections are not empty and their members / fields distinct (what Redis
+    stores). `hload`: when RESTORE is enabled the target can load the value types
+    (the `Bad data format` fall-back needs an oracle with error replies). `htick`:
+    the harness clock stands still during the replay (`ttl_absolute` holds for every
+    reading). `hrht`: `ReplaceHashTag` off. `hdb`: the DB mapping yields valid
+    (non-negative) indices. `hdistinct`: the replayed keys are distinct per target
+    database (true of any snapshot unless a DB map merges databases). -/
+theorem full_sync_partial (d : DCfg) (cfg : RCfg) (f : FileE)
+    (hwf : f.wf) (hfoot : f.footer ≠ .bad) (hcar : ∀ i ∈ f.items, i.carried)
+    (hpar : cfg.parallel = 1) (htick : cfg.tick = 0) (hrht : cfg.replaceHashTag = false)
+    (hload : ∀ p ∈ f.keys, cfg.enableRestore = true → typeLoadable cfg.x.tgtMajor p.2.obj.rtype = true)
+    (hdb : ∀ n : Nat, cfg.filterDb (n : Int) = false → 0 ≤ mapDb cfg (n : Int))
+    (hdistinct : ((f.keys.filter (replayed cfg)).map (fun p => (mapDb cfg (p.1 : Int), p.2.key.val))).Nodup) :
+    ∃ log T, sendRdb d cfg [] (rdbFile f) = ([log], true) ∧ applyReqs {} log = some T ∧
+      ∀ D, Pointwise (Holds cfg) (expectedKeys cfg D f.keys) (T.dbs D) :=
+  full_sync_core d cfg f hwf hfoot hcar hpar htick hrht hload hdb hdistinct
+
+/-- what `full_sync_partial` says of a single key: a key of `f` that is not filtered out is
+    present in its target database after the sync, with the time to live of its absolute expiry -/
+theorem full_sync_key (d : DCfg) (cfg : RCfg) (f : FileE)
+    (hwf : f.wf) (hfoot : f.footer ≠ .bad) (hcar : ∀ i ∈ f.items, i.carried)
+    (hpar : cfg.parallel = 1) (htick : cfg.tick = 0) (hrht : cfg.replaceHashTag = false)
+    (hload : ∀ p ∈ f.keys, cfg.enableRestore = true → typeLoadable cfg.x.tgtMajor p.2.obj.rtype = true)
+    (hdb : ∀ n : Nat, cfg.filterDb (n : Int) = false → 0 ≤ mapDb cfg (n : Int))
+    (hdistinct : ((f.keys.filter (replayed cfg)).map (fun p => (mapDb cfg (p.1 : Int), p.2.key.val))).Nodup)
+    (p : Nat × KeyE) (hp : p ∈ f.keys) (hrep : replayed cfg p = true) :
+    ∃ log T, sendRdb d cfg [] (rdbFile f) = ([log], true) ∧ applyReqs {} log = some T ∧
+      ∃ x ∈ T.dbs (mapDb cfg (p.1 : Int)), Holds cfg p x := by
+  obtain ⟨log, T, h1, h2, h3⟩ := full_sync_partial d cfg f hwf hfoot hcar hpar htick hrht hload hdb hdistinct
+  refine ⟨log, T, h1, h2, ?_⟩
+  have hmem : p ∈ expectedKeys cfg (mapDb cfg (p.1 : Int)) f.keys := by
+    simp [expectedKeys, hp, hrep]
+  have key : ∀ (as : List (Nat × KeyE)) (bs : List (Bytes × Val × Nat)), Pointwise (Holds cfg) as bs →
+      p ∈ as → ∃ x ∈ bs, Holds cfg p x := by
+    intro as bs h
+    induction h with
+    | nil => intro h; cases h
+    | cons hab _ ih =>
+      intro h
+      rcases List.mem_cons.mp h with rfl | h
+      · exact ⟨_, List.mem_cons_self .., hab⟩
+      · obtain ⟨x, hx, hh⟩ := ih h
+        exact ⟨x, List.mem_cons_of_mem _ hx, hh⟩
+  exact key _ _ (h3 _) hmem
+
+/-! ## Any number of workers
+
+The target with one connection per worker is `MState` (`applySched`: a schedule of
+requests tagged with their connection; every connection has its own selected
+database, the keyspaces are shared; requests are atomic). -/
+
+/-- the number of workers is irrelevant — for ANY entries the loader can produce
+    (an entry without database is a function library; no stream values), any
+    existence table and any two numbers of workers: replaying the entries in
+    snapshot order, each on the connection of the worker the fan-out routes it to,
+    leaves the same keyspaces in every database (or fails on both), and the tool
+    reports the same success. (Each worker switches ITS connection to the entry's
+    database before it issues the entry's requests, and what it issues does not
+    depend on the worker: `step_M`, `fanOut_dbs`.) -/
+theorem fanout_workers_irrelevant (cfg : RCfg) (es : List Entry) (ex : Exists) (n1 n2 : Nat)
+    (h1 : 0 < n1) (h2 : 0 < n2) (htick : cfg.tick = 0)
+    (hdb : ∀ n : Nat, cfg.filterDb (n : Int) = false → 0 ≤ mapDb cfg (n : Int))
+    (hes : ∀ e ∈ es, ((e.db = -1 ∧ e.obj.rtype = 0xF5) ∨ ∃ n : Nat, e.db = (n : Int)) ∧
+      otypeOf e.obj.rtype ≠ some .stream) :
+    (applySched {} (schedOf (fanOutTrace cfg es 0 (List.replicate n1 {}) ex))).map (·.dbs) =
+      (applySched {} (schedOf (fanOutTrace cfg es 0 (List.replicate n2 {}) ex))).map (·.dbs) ∧
+    (fanOut cfg es 0 (List.replicate n1 {}) ex).2.2 = (fanOut cfg es 0 (List.replicate n2 {}) ex).2.2 := by
+  have a := fanOut_dbs cfg htick hdb es hes 0 (List.replicate n1 {}) ex {} (by simpa using h1)
+    (fun j _ => getD_replicate_cur n1 j)
+  have b := fanOut_dbs cfg htick hdb es hes 0 (List.replicate n2 {}) ex {} (by simpa using h2)
+    (fun j _ => getD_replicate_cur n2 j)
+  exact ⟨a.1.trans b.1.symm, a.2.trans b.2.symm⟩
+
+/-- requests on different keys commute on the oracle: for any two commands of the plain
+    kinds (SET, DEL, EXISTS, PEXPIRE, RPUSH, SADD, ZADD, HSET, RESTORE — everything the
+    replay of strings, lists, sets, sorted sets and hashes issues) that name different
+    keys, from ANY keyspace: either order fails, or both orders succeed with the same
+    value and time to live under every key (`KEq`; only the order of the key list may
+    differ). Every such command is LOCAL to its key (`local_applyXCmd`: reply and
+    update are a function of the key's own state). -/
+theorem oracle_keys_commute (c1 c2 : Cmd) (k1 k2 : Bytes) (r1 r2 : List Arg) (ks : Keyspace)
+    (h1 : c1.args = .b k1 :: r1) (h2 : c2.args = .b k2 :: r2)
+    (n1 : lower c1.name ∈ plainNames) (n2 : lower c2.name ∈ plainNames) (hne : k1 ≠ k2) :
+    ORel KEq ((applyXCmd ks c1).bind (fun ks' => applyXCmd ks' c2))
+             ((applyXCmd ks c2).bind (fun ks' => applyXCmd ks' c1)) :=
+  local_commute (local_applyXCmd c1 k1 r1 h1 n1) (local_applyXCmd c2 k2 r2 h2 n2) hne ks
+
+/-- **`fanout_parallel_partial`** — `full_sync_partial` for ANY number of workers
+    (`parallel = n ≥ 1`): `sendRdb` succeeds with `n` request logs, and there is a
+    schedule of all requests — snapshot order, `schedOf (fanOutTrace …)` — whose
+    projection to every connection `j` is exactly worker `j`'s log and which leaves on
+    the target, in every database, exactly the keys `full_sync_partial` names, with
+    their values and times to live. (`fanout_parallel` extends this to EVERY
+    interleaving of the `n` logs.) -/
+theorem fanout_parallel_partial (d : DCfg) (cfg : RCfg) (f : FileE)
+    (hwf : f.wf) (hfoot : f.footer ≠ .bad) (hcar : ∀ i ∈ f.items, i.carried)
+    (htick : cfg.tick = 0) (hrht : cfg.replaceHashTag = false)
+    (hload : ∀ p ∈ f.keys, cfg.enableRestore = true → typeLoadable cfg.x.tgtMajor p.2.obj.rtype = true)
+    (hdb : ∀ n : Nat, cfg.filterDb (n : Int) = false → 0 ≤ mapDb cfg (n : Int))
+    (hdistinct : ((f.keys.filter (replayed cfg)).map (fun p => (mapDb cfg (p.1 : Int), p.2.key.val))).Nodup)
+    (n : Nat) (hn : 1 ≤ n) (hpar : cfg.parallel = n) :
+    ∃ logs sched M, sendRdb d cfg [] (rdbFile f) = (logs, true) ∧ logs.length = n ∧
+      (∀ j, j < n → (sched.filter (fun p => p.1 == j)).map (·.2) = logs.getD j []) ∧
+      applySched {} sched = some M ∧
+      ∀ D, Pointwise (Holds cfg) (expectedKeys cfg D f.keys) (M.dbs D) := by
+  obtain ⟨logs, sched, M, h1, h2, h3, h4, h5, _⟩ :=
+    fanout_parallel_core d cfg f hwf hfoot hcar htick hrht hload hdb hdistinct n hn hpar
+  exact ⟨logs, sched, M, h1, h2, h3, h4, h5⟩
+
+/-- **`fanout_parallel`** — the final keyspace does not depend on the number of workers NOR
+    on how their requests interleave: for `parallel = n ≥ 1`, `sendRdb` succeeds with `n`
+    request logs, and EVERY schedule of all requests (requests are atomic; any order
+    that keeps each connection's own order, i.e. whose projection to connection `j` is
+    worker `j`'s log) succeeds on the target with one connection per worker and leaves,
+    under every key of every database, the value and time to live of the snapshot-order
+    result `M0` (`KEq`: the same keys with the same contents; only the order in which the
+    key list enumerates them may differ) — and `M0` holds exactly the keys
+    `full_sync_partial` names. Proof: a worker's log consists of SELECT, SCRIPT/FUNCTION
+    and plain commands local to one key (`local_applyXCmd`); every key is routed to one
+    worker (`fnv(key) mod n`), so requests of different workers never name the same
+    key and commute (`oracle_keys_commute`, `tagged_comm`); two schedules with the same
+    per-connection projections are then connected by swaps of adjacent independent
+    requests (`sched_indep`). Same hypotheses as `full_sync_partial` (without `hpar`). -/
+theorem fanout_parallel (d : DCfg) (cfg : RCfg) (f : FileE)
+    (hwf : f.wf) (hfoot : f.footer ≠ .bad) (hcar : ∀ i ∈ f.items, i.carried)
+    (htick : cfg.tick = 0) (hrht : cfg.replaceHashTag = false)
+    (hload : ∀ p ∈ f.keys, cfg.enableRestore = true → typeLoadable cfg.x.tgtMajor p.2.obj.rtype = true)
+    (hdb : ∀ n : Nat, cfg.filterDb (n : Int) = false → 0 ≤ mapDb cfg (n : Int))
+    (hdistinct : ((f.keys.filter (replayed cfg)).map (fun p => (mapDb cfg (p.1 : Int), p.2.key.val))).Nodup)
+    (n : Nat) (hn : 1 ≤ n) (hpar : cfg.parallel = n) :
+    ∃ (logs : List (List Cmd)) (M0 : MState), sendRdb d cfg [] (rdbFile f) = (logs, true) ∧ logs.length = n ∧
+      (∀ D, Pointwise (Holds cfg) (expectedKeys cfg D f.keys) (M0.dbs D)) ∧
+      ∀ sched : List (Nat × Cmd),
+        (∀ j, (sched.filter (fun p => p.1 == j)).map (·.2) = logs.getD j []) →
+        ∃ M, applySched {} sched = some M ∧ ∀ D, KEq (M.dbs D) (M0.dbs D) :=
+  any_interleaving_core d cfg f hwf hfoot hcar htick hrht hload hdb hdistinct n hn hpar
+
+/-- the statement at full strength — NOT proved (listed `partial`): as `full_sync_partial`, but
+    also for streams (consumer groups, PELs; `sval` = the denotation of a stream
+    description, which the specification side does not define yet), for module values
+    (which only travel by RESTORE) and for module aux items when the policy skips
+    them. Missing for it: `stream_roundtrip_stmt` (XSETID / XGROUP / XCLAIM through the
+    oracle), a `Next` lemma for module values and module aux data
+    (`skipModuleValue` over `modulePayload`). -/
+def valueWith (sval : StreamE → XStream) (o : ObjE) : Val :=
+  match o with
+  | .stream s => .stream (sval s)
+  | _ => o.value
+
+def HoldsFull (sval : StreamE → XStream) (cfg : RCfg) (p : Nat × KeyE) (x : Bytes × Val × Nat) : Prop :=
+  x.1 = p.2.key.val ∧ x.2.2 = ttlOf cfg.now p.2.exp.at ∧
+  ((x.2.1 = valueWith sval p.2.obj ∧ (¬ viaRestore cfg p.2.obj ∨ p.2.obj.rtype = 4)) ∨
+   (x.2.1 = .restored (createValueDump p.2.obj.rtype p.2.obj.ser) ∧ viaRestore cfg p.2.obj))
+
+def carriedFull (d : DCfg) (cfg : RCfg) : Item → Prop
+  | .moduleAux .. => d.failModAux = false
+  | .key k =>
+    match k.obj with
+    | .stream _ => True
+    | .module2 .. => viaRestore cfg k.obj
+    | .raw .. => False
+    | o => o.nonempty ∧ o.members.Nodup
+  | _ => True
+
+def full_sync_stmt : Prop :=
+  ∃ sval : StreamE → XStream, ∀ (d : DCfg) (cfg : RCfg) (f : FileE),
+    f.wf → f.footer ≠ .bad → (∀ i ∈ f.items, carriedFull d cfg i) →
+    cfg.parallel = 1 → cfg.tick = 0 → cfg.replaceHashTag = false →
+    (∀ p ∈ f.keys, cfg.enableRestore = true → typeLoadable cfg.x.tgtMajor p.2.obj.rtype = true) →
+    (∀ n : Nat, cfg.filterDb (n : Int) = false → 0 ≤ mapDb cfg (n : Int)) →
+    ((f.keys.filter (replayed cfg)).map (fun p => (mapDb cfg (p.1 : Int), p.2.key.val))).Nodup →
+    ∃ log T, sendRdb d cfg [] (rdbFile f) = ([log], true) ∧ applyReqs {} log = some T ∧
+      ∀ D, Pointwise (HoldsFull sval cfg) (expectedKeys cfg D f.keys) (T.dbs D)
+
 /-! Non-vacuity / check values -/
 
 -- CRC-64/Jones("123456789") = 0xe9c6d914c4b8d9ca (Redis crc64.c test vector)
@@ -490,5 +692,52 @@ example : applyCmds [] (replayEntry { enableRestore := false, now := 5000 } 0 []
     (by decide) (by decide) rfl rfl
 -- TTL: expiry 1000 ms ahead / already past
 example : ttlOf 5000 6000 = 1000 ∧ ttlOf 5000 4000 = 1 ∧ ttlOf 5000 0 = 0 := by decide
+
+-- full_sync_partial on a file with an AUX field, three databases, RESIZEDB, a function library, a string
+-- with expiry, the three-pair hash table of `exHashKey` (threshold 1: three chunks) and the list `exList`
+def exFile : FileE :=
+  { version := 9,
+    items := [.aux (SE.plain [118]) (SE.plain [55]), .selectDb .b6 1, .resizeDb .b6 2 .b6 1,
+              .key { exp := .ms 6000, key := SE.plain [115], obj := .str (SE.plain [118]) },
+              .key exHashKey, .function (SE.plain [1, 2, 3]), .selectDb .b6 2,
+              .key { key := SE.plain [108], obj := exList }] }
+example : exFile.wf ∧ (∀ i ∈ exFile.items, i.carried) := by decide
+example : (exFile.keys.map (fun p => (p.1, p.2.key.val))) = [(1, [115]), (1, [104]), (2, [108])] := by decide
+example : ∃ log T, sendRdb { thr := 1 } { enableRestore := false, now := 5000 } [] (rdbFile exFile) = ([log], true) ∧
+    applyReqs {} log = some T ∧
+    ∀ D, Pointwise (Holds { enableRestore := false, now := 5000 })
+      (expectedKeys { enableRestore := false, now := 5000 } D exFile.keys) (T.dbs D) :=
+  full_sync_partial { thr := 1 } { enableRestore := false, now := 5000 } exFile (by decide) (by decide) (by decide)
+    rfl rfl rfl (fun _ _ h => by cases h) (fun n _ => by simp [mapDb]) (by decide)
+-- … and with RESTORE on (target 8.x), the whole hash under the default threshold, DB 1 mapped to 7, key "s" filtered out
+def exCfg : RCfg := { x := { tgtMajor := 8 }, now := 5000, dbMap := [(1, 7)], filterKey := fun k => k == [115] }
+example : ∃ log T, sendRdb {} exCfg [] (rdbFile exFile) = ([log], true) ∧ applyReqs {} log = some T ∧
+    ∃ x ∈ T.dbs 7, Holds exCfg (1, exHashKey) x :=
+  full_sync_key {} exCfg exFile (by decide) (by decide) (by decide) rfl rfl rfl
+    (fun _ _ _ => by simp [typeLoadable, exCfg])
+    (fun n _ => by
+      unfold mapDb
+      simp only [exCfg, ne_eq, not_true_eq_false, if_false, List.find?]
+      cases h : ((1 : Int) == (n : Int)) <;> simp <;> omega)
+    (by decide) (1, exHashKey) (by simp [FileE.keys, exFile, keysFrom, dbAfter]) (by decide)
+-- the same file with three workers
+example : ∃ logs sched M, sendRdb { thr := 1 } { enableRestore := false, now := 5000, parallel := 3 } []
+      (rdbFile exFile) = (logs, true) ∧ logs.length = 3 ∧
+    (∀ j, j < 3 → (sched.filter (fun p => p.1 == j)).map (·.2) = logs.getD j []) ∧
+    applySched {} sched = some M ∧
+    ∀ D, Pointwise (Holds { enableRestore := false, now := 5000, parallel := 3 })
+      (expectedKeys { enableRestore := false, now := 5000, parallel := 3 } D exFile.keys) (M.dbs D) :=
+  fanout_parallel_partial { thr := 1 } { enableRestore := false, now := 5000, parallel := 3 } exFile (by decide)
+    (by decide) (by decide) rfl rfl (fun _ _ h => by cases h) (fun n _ => by simp [mapDb]) (by decide) 3 (by decide) rfl
+-- … and every interleaving of the three workers' requests
+example : ∃ (logs : List (List Cmd)) (M0 : MState),
+    sendRdb { thr := 1 } { enableRestore := false, now := 5000, parallel := 3 } [] (rdbFile exFile) = (logs, true) ∧
+    logs.length = 3 ∧
+    (∀ D, Pointwise (Holds { enableRestore := false, now := 5000, parallel := 3 })
+      (expectedKeys { enableRestore := false, now := 5000, parallel := 3 } D exFile.keys) (M0.dbs D)) ∧
+    ∀ sched : List (Nat × Cmd), (∀ j, (sched.filter (fun p => p.1 == j)).map (·.2) = logs.getD j []) →
+      ∃ M, applySched {} sched = some M ∧ ∀ D, KEq (M.dbs D) (M0.dbs D) :=
+  fanout_parallel { thr := 1 } { enableRestore := false, now := 5000, parallel := 3 } exFile (by decide)
+    (by decide) (by decide) rfl rfl (fun _ _ h => by cases h) (fun n _ => by simp [mapDb]) (by decide) 3 (by decide) rfl
 
 end GunYu.Props.C03
